@@ -17,10 +17,11 @@ Record cfg := mkCfg {
   f28 : bool;   (* an emptied block that did not start at column 1 prints "\n" *)
   f35 : bool;   (* block selection sorts by key only (no TypeError on equal keys) *)
   f37 : bool;   (* ImportAlreadyExistsError is caught in the add-missing loop too *)
-  f38 : bool    (* a last prologue line without newline is terminated before the new import block *)
+  f38 : bool;   (* a last prologue line without newline is terminated before the new import block *)
+  f40 : bool    (* a bytes-literal statement is not a docstring *)
 }.
-Definition repaired : cfg := mkCfg true true true true true true true true true.
-Definition unchanged : cfg := mkCfg false false false false false false false false false.
+Definition repaired : cfg := mkCfg true true true true true true true true true true.
+Definition unchanged : cfg := mkCfg false false false false false false false false false false.
 
 (* where the code raises: ConflictingImportsError (ImportSet.pretty_print), LineNumberAmbiguousError,
    Exception("Multiple imports to remove"), TypeError (tuple comparison falls through to the block objects),
@@ -177,6 +178,7 @@ Definition select_block (c : cfg) (bs : list block) (imp : import) (L : option n
       statements = self.blocks[0].input.statements
       for idx, statement in enumerate(statements):
           if not statement.is_comment_or_blank_or_string_literal:         [F9: a second string literal is not prologue]
+                                                                           [F40: a bytes literal is not prologue]
               if idx == 0: self.blocks[0:0] = blocks
               else: self.blocks[:1] = [Transformation(concatenate(statements[:idx]))] + blocks + [Transformation(concatenate(statements[idx:]))]
               break
@@ -191,6 +193,8 @@ Fixpoint first_nonprologue (c : cfg) (ss : list stmt) (seen_string : bool) : opt
       | KBlank => option_map S (first_nonprologue c r seen_string)
       | KString => if f9 c && seen_string then Some 0
                    else option_map S (first_nonprologue c r true)
+      | KBytes => if f40 c || (f9 c && seen_string) then Some 0
+                  else option_map S (first_nonprologue c r true)
       | KCode => Some 0
       end
   end.
